@@ -10,14 +10,29 @@ PROPS = {}
 # ------------------------------------------------------------------------------------------------
 UNITS["core"] = dict(
     name="core",
-    stage=[("repo",), ("crate", "harness/core"), ("lock",), SYM],
+    stage=[("repo",), ("crate", "harness/core"), ("lock",), SYM, ("shared", "models/mcodec.rs", "src/mcodec.rs")],
     native_features=["replay"],
     functions=[
+        ("p2panda-core/src/operation.rs", "validate_operation", r"pub fn validate_operation"),
+        ("p2panda-core/src/operation.rs", "validate_header", r"pub fn validate_header"),
+        ("p2panda-core/src/operation.rs", "Header::verify", r"pub fn verify\(&self\) -> bool"),
+        ("p2panda-core/src/serde.rs", "Serialize for Header", r"impl<E> Serialize for Header<E>"),
         ("p2panda-core/src/prune.rs", "validate_prunable_backlink", r"pub fn validate_prunable_backlink"),
         ("p2panda-core/src/operation.rs", "validate_backlink", r"pub fn validate_backlink"),
         ("p2panda-core/src/timestamp.rs", "HybridTimestamp::increment", r"pub fn increment\(self\) -> Self \{", r"impl HybridTimestamp"),
     ],
     harnesses=[
+        dict(name="c01::accepted_is_well_formed", prop="C01", timeout=180,
+             encodes="validate_operation, validate_header (Header::verify = symbolic verdict), Body::hash/size",
+             bounds="all field values and all 8 presence patterns symbolic; body absent or 0..4 symbolic bytes"),
+        dict(name="c01::tamper_shape_00", prop="C01", timeout=240,
+             encodes="validate_header, Header::verify, Header::to_bytes, Serialize for Header on the model codec, idealised signature oracle",
+             bounds="presence shape (no payload hash, no backlink); all field values; 7 single-field mutations incl. any single signature byte"),
+        dict(name="c01::tamper_shape_01", prop="C01", timeout=240, encodes="as tamper_shape_00", bounds="shape (no payload hash, backlink)"),
+        dict(name="c01::tamper_shape_10", prop="C01", timeout=240, encodes="as tamper_shape_00", bounds="shape (payload hash, no backlink)"),
+        dict(name="c01::tamper_shape_11", prop="C01", timeout=240, encodes="as tamper_shape_00", bounds="shape (payload hash, backlink)"),
+        dict(name="c01::body_tamper_rejected", prop="C01", timeout=180,
+             encodes="validate_operation body check", bounds="bodies of 1..4 bytes, one byte flipped / one byte shorter / one byte longer"),
         dict(name="c03::accepted_extends_chain", prop="C03", timeout=120,
              encodes="validate_prunable_backlink, validate_backlink (no prune flag)",
              bounds="arbitrary stored latest header (or none) with seq < u32::MAX, arbitrary incoming seq/author/backlink"),
@@ -62,6 +77,19 @@ PROPS["C03"] = dict(
                 "latest entry: accepted => exactly the next hash-linked entry; restart, gap, wrong author, wrong backlink are rejected; the "
                 "correctly linked next operation is accepted. Covers every u32 seq pair instead of the in-order log the tests feed."),
     level_note="Trusted: Kani/CBMC; Header::hash stubbed to a symbolic constant (collision-freeness assumed); the async ingest glue and SQLite are outside the claim.",
+)
+PROPS["C01"] = dict(
+    units=["core"],
+    trusted_base=_CORE_TB + ["model codec stands for ciborium (injective, fixed-width, tagged encoding of the serde data model); p2panda's Serialize impl runs unchanged on it",
+                             "idealised Ed25519 (EUF-CMA): verify accepts exactly the recorded (key, message bytes, signature) triple",
+                             "Hash::digest stub: injective on bodies of <= 4 bytes"],
+    assumptions=["E = () (no extensions) in these harnesses", "bodies <= 4 bytes"],
+    bounds="all header field values; 8 presence patterns (well-formedness), 4 well-formed presence shapes x 7 single-field mutations (tamper); bodies <= 4 bytes",
+    outside="ingest_operation's async glue (validate before begin, store unchanged on Err, StreamEvent reporting): the async state machine exhausts 56 GB in CBMC; Operation.hash == header.hash() is checked neither by the code nor demanded by the property",
+    level_text=("Bounded model checking of the real validate_operation/validate_header/Header::verify with p2panda's own Serialize impl on a model codec and an "
+                "idealised signature: accepted => signed, verified, version 1, payload/backlink info consistent, body matches; every single-field mutation of an honestly "
+                "signed header (incl. any signature byte) and every 1-byte/length change of a body is rejected — for ALL field values, not the handful the tests sample."),
+    level_note="Trusted: Kani/CBMC; ciborium replaced by an injective model codec; Ed25519 and BLAKE3 idealised; the async ingest glue is outside the claim.",
 )
 PROPS["C05"] = dict(
     units=["core"], trusted_base=_CORE_TB,
